@@ -319,7 +319,7 @@ MUTANTS = [
     {'name': 'second adjustment appended when one is present', 'expect': ('PATH.attach', ''),
      'edits': [(E_, '                        elif isinstance(model, GasPressureAdj):\n                            break', '                        elif isinstance(model, GasPressureAdj):\n                            pass')]},
     {'name': 'phase test case-sensitive', 'expect': ('PATH.attach', ''),
-     'edits': [(E_, "if self.phase.lower() == 'g' or self.phase.lower() == 'gas':", "if self.phase == 'g' or self.phase.lower() == 'gas':")]},
+     'edits': [(E_, "if (self.phase.lower() == 'g' or self.phase.lower() == 'gas'):", "if (self.phase == 'g' or self.phase.lower() == 'gas'):")]},
     {'name': 'Nasa.get_HoRT array branch evaluates models at T not T_i', 'expect': ('BRANCH-TWIN.array', 'Nasa.get_HoRT'),
      'edits': [(N_, "                                               default_value=0.,\n                                               T=T_i,\n                                               **kwargs))\n        else:\n            a = self.get_a(T=T)\n            HoRT",
                 "                                               default_value=0.,\n                                               T=T[0],\n                                               **kwargs))\n        else:\n            a = self.get_a(T=T)\n            HoRT")]},
